@@ -31,6 +31,8 @@ for p in props:
             except AnalysisError as e:  # as in xsa.check: a rule group that stops does not erase earlier findings
                 rep.analysis_errors.append(str(e))
                 expl = "rule evaluation stopped early"
+            from xsa import memo_rule
+            rep.run(memo_rule.check, idx, rep, p)
             rc = rep.finish(expl, idx)
     except AnalysisError as e:
         buf.write(f"ANALYSIS-ERROR property={p}: {e}\n")
